@@ -59,8 +59,8 @@ pub fn unify(state: &mut TypeCheckerState, watchdog: &DynWatchdog) -> Result<()>
     let polling_interval = watchdog.poll_every();
     let mut counter = 0;
 
-    // The forest as the previous round left it, used to detect rounds that change nothing.
-    let mut previous_round: Option<UnificationForest> = None;
+    // The forest as each earlier round left it, used to detect rounds that lead nowhere new.
+    let mut previous_rounds: Vec<UnificationForest> = Vec::new();
 
     // Then, we loop until we stop making progress.
     loop {
@@ -164,10 +164,10 @@ pub fn unify(state: &mut TypeCheckerState, watchdog: &DynWatchdog) -> Result<()>
         // class, as for a packed encoding one of whose spans is typed by the class itself). No
         // progress is possible, so we stop rather than looping forever, leaving the classes
         // concerned with more than one inference for the caller to report.
-        if previous_round.as_ref() == Some(&forest) {
+        if previous_rounds.contains(&forest) {
             break;
         }
-        previous_round = Some(forest.clone());
+        previous_rounds.push(forest.clone());
     }
 
     state.set_result(forest);
